@@ -49,7 +49,8 @@ def check(model: Model, rep: Report, tier: str):
                             "container shared by all registries", keep=lambda c: c.module.relpath.endswith("registry_duration.py"))
     from .c03 import h5
     with rep.isolated():
-        share_rule(rep, model, lambda m, r: h5(m, r, cg), "C10.T5", "memoised start times are keyed per link: unrolled repetitions and look-alike blocks never share an entry (= C03.H5)")
+        share_rule(rep, model, lambda m, r: h5(m, r, cg), "C10.T5", "memoised start times are keyed per link: unrolled repetitions and look-alike blocks never share an entry (= C03.H5)",
+                   keep=lambda o: "/structure/" in o["loc"] or "/language/" in o["loc"])
 
 
 # the duration setting each operation kind lasts for (specification table; a class missing here is reported in the evidence only)
